@@ -15,7 +15,7 @@ RULE = ("push-fail: the device rejects a push right after SEND, after the k-th D
 ASSUMPTIONS = ["sync ids outside the id table raise KeyError today; the statement is read as speaking of known ids, unknown ids are not decided",
                "after a FAIL the device keeps acknowledging WRTEs, drains until DONE and then closes the stream, as current adbd does"]
 SHARDS = {"quick": 8, "thorough": 16}
-TIME_BUDGET = {"quick": 60, "thorough": 600}
+TIME_BUDGET = {"quick": 300, "thorough": 1800}
 FLOORS = {"quick": {"push_fails": 300, "pull_fails": 200, "wrong_records": 100, "fail_before_later_okay": 40, "distinct": 100},
           "thorough": {"push_fails": 5000, "pull_fails": 3000, "wrong_records": 1500, "fail_before_later_okay": 600}}
 
